@@ -43,6 +43,7 @@ type Contract struct {
 	Requires  []Clause
 	Ensures   []Clause
 	Universe  map[string]string // parameter -> generator expression for the bounded run
+	Zip       []string          // parameters drawn with one common index (universes of equal length): tuples instead of a cross product
 	AssumeIface map[int]string // interface-level ensures clauses this implementation does not prove (index -> reason)
 	EnsuresExit []Clause // must hold at every os.Exit reached from this function (ghost: exit, stdout, fileWritten, ...)
 	EnsuresB  []Clause // evaluated natively on bounded universes only (never proved, never assumed)
@@ -144,6 +145,8 @@ func parseContractsP(path string, into map[string]*Contract, p *Program) error {
 				cur.Universe = map[string]string{}
 			}
 			cur.Universe[pn] = ex
+		case "zip":
+			cur.Zip = append(cur.Zip, strings.Fields(rest)...)
 		case "assume_iface":
 			// assume_iface <clause index> <reason>: this implementation leaves the interface clause to the bounded check
 			w2, r2 := splitWord(rest)
